@@ -66,14 +66,26 @@ func (p RemotePackage) subPathString(subPath string) string {
 	}
 
 	// The weird syntax we've inherited from go-getter expects the URL's
-	// query string to appear after the subpath portion, so we need to
-	// now tweak the package URL to be a sub-path URL instead.
+	// query string to appear after the subpath portion. The parser splits the
+	// sub-path off textually, before URL parsing and without unescaping it, so
+	// it must also be inserted textually here: pushing it through the URL's
+	// path would percent-encode it (and drop it entirely for opaque URLs or
+	// mangle a package path that has its own escaping), giving a string that
+	// parses back to a different address.
 	subURL := p.url // shallow copy
-	subURL.Path += "//" + subPath
-	if subURL.Scheme == p.sourceType {
-		return subURL.String()
+	suffix := ""
+	if subURL.ForceQuery || subURL.RawQuery != "" {
+		suffix += "?" + subURL.RawQuery
 	}
-	return p.sourceType + "::" + subURL.String()
+	if subURL.Fragment != "" {
+		suffix += "#" + subURL.EscapedFragment()
+	}
+	subURL.ForceQuery, subURL.RawQuery, subURL.Fragment, subURL.RawFragment = false, "", "", ""
+	str := subURL.String() + "//" + subPath + suffix
+	if subURL.Scheme == p.sourceType {
+		return str
+	}
+	return p.sourceType + "::" + str
 }
 
 // SourceType returns the source type component of the package address.
